@@ -377,7 +377,7 @@ def e10_memo_keyed_by_arguments(ctx, modules=None) -> None:
             for t in tg:
                 if not is_self_attr(t):
                     continue
-                memo = [g for g in C.flatten_guards(C.guards(f, st)) if g[1] and _is_none_test(g[0], norm(t))]
+                memo = [g for g in C.flatten_guards(C.guards(f, st)) if g[1] and (_is_none_test(g[0], norm(t)) or _is_none_test_of_alias(f, g[0], t))]
                 if not memo:
                     continue
                 n += 1
@@ -447,6 +447,23 @@ def e10_memo_keyed_by_arguments(ctx, modules=None) -> None:
                 ctx.ok("E10", f"{fi.qualname}: the key returned is computed in the call")
     if n < 4 or k < 3:
         ctx.floor("E10", 99)
+
+
+def _is_none_test_of_alias(f, t: ast.AST, target: ast.Attribute) -> bool:
+    """`x is None` where x was read from the memo attribute (x = self.a / getattr(self, "a", None))."""
+    if not (isinstance(t, ast.Compare) and len(t.ops) == 1 and isinstance(t.ops[0], ast.Is) and isinstance(t.left, ast.Name)
+            and isinstance(t.comparators[0], ast.Constant) and t.comparators[0].value is None):
+        return False
+    for d in D.definitions(f).get(t.left.id, []):
+        v = d[1]
+        if v is None:
+            continue
+        if norm(v) == norm(target):
+            return True
+        if isinstance(v, ast.Call) and norm(v.func) == "getattr" and len(v.args) >= 2 and norm(v.args[0]) == "self" \
+                and isinstance(v.args[1], ast.Constant) and v.args[1].value == target.attr:
+            return True
+    return False
 
 
 def _is_none_test(t: ast.AST, target: str) -> bool:
